@@ -10,6 +10,7 @@ mod scenario;
 mod send;
 mod settings;
 mod storage;
+mod wallet;
 
 use {
   anyhow::{Result, anyhow},
@@ -215,6 +216,13 @@ fn main() -> Result<()> {
       arg_value(&args, "--n").map(|s| s.parse().unwrap()).unwrap_or(200),
       &arg_value(&args, "--out").ok_or_else(|| anyhow!("--out"))?,
     ),
+    "wallet-runes" => wallet::runes_trace(
+      arg_value(&args, "--seed").map(|s| s.parse().unwrap()).unwrap_or(1),
+      arg_value(&args, "--worlds").map(|s| s.parse().unwrap()).unwrap_or(1),
+      arg_value(&args, "--ops").map(|s| s.parse().unwrap()).unwrap_or(6),
+      &arg_value(&args, "--out").ok_or_else(|| anyhow!("--out"))?,
+    ),
+    "wallet-smoke" => wallet::smoke(&arg_value(&args, "--out").ok_or_else(|| anyhow!("--out"))?),
     "crash-child" => runner::crash_child(&args[1..]),
     other => Err(anyhow!("unknown command {other}")),
   }
